@@ -255,6 +255,40 @@ RM_SPECS = {
 }
 RM_SEEN_KEY = {"C12": "C05"}
 
+C13_KINDS_TA = ["unparsable-available", "unparsable-reserved", "reserved-outside-available", "available-quantity", "missing-reserved"]
+C13_KINDS_BLN = ["unparsable-available", "reserved-outside-available", "duplicate-type", "min-gt-max-cpus", "min-gt-max-balloons", "undefined-load", "bad-memory-type", "unsatisfiable"]
+
+MODE_SPECS = {
+    "C13": dict(policies=[TA, BLN], bias="mix", machines=RM_MACHINES_QUICK, modes=["seq", "twin"], props="C13,C14",
+                floors=dict({"c13_identical_checked": 100, "c13_rejected_checked": 60, "c13_accepted_checked": 100, "c13_twin_injected": 100,
+                             "c13_identical_checked_in_clean_state": 40, "c13_rejected_checked_in_clean_state": 25, "c13_twin_injected_in_clean_state": 40},
+                            **{"c13_twin_rejected_" + k: 1 for k in set(C13_KINDS_TA + C13_KINDS_BLN)}),
+                rule="(a) every reconfiguration inside generated histories is bracketed by a before/after observation (per-container cache resources, advertised zones, policy assignments, pushed updates): identical configs must change nothing, rejected ones must change nothing; (b) differential twins: a deterministic (self-twin calibrated) history is replayed with a rejected update of a PRNG-chosen kind injected at a PRNG-chosen request boundary and must be indistinguishable from the twin at every later request; after accepted updates every live container must still hold an allocation. distinct = distinct (kind, machine, state shape) brackets + injected twin cases"),
+    "C11": dict(policies=[TA, BLN], bias="mix", machines=RM_MACHINES_QUICK, modes=["restart"], props="C01,C02,C03,C04,C05,C09,C11,C12",
+                floors={"c11_restart_checked_fresh-cache": 100, "c11_restart_checked_stale-cache": 100, "c11_down_create": 50, "c11_down_stop": 50},
+                level="fault_enumeration",
+                rule="histories with 1-2 plugin restarts: state-directory snapshot at a PRNG-chosen request boundary, plugin down, runtime drift (containers created/started/stopped/removed, pods added/removed while down), restart on the current or on the stale snapshot directory, Synchronize with the runtime's lists; then membership equalities (live <=> holds allocation, decided against a cache-less reference plugin synchronized with the same lists; gone => purged) and all C01-C05/C09/C12 monitors, on the restart and on every later request; distinct = distinct (machine, fresh|stale, restart number, post-sync state shape, policy)"),
+}
+
+
+def check_modes(prop, tier, seed):
+    spec = MODE_SPECS[prop]
+    res = Result(prop, tier, seed)
+    rmbin = build("rm")
+    rundir = os.path.join(BUILD, "run", "%s-%d" % (prop, os.getpid()))
+    shutil.rmtree(rundir, ignore_errors=True)
+    jobs = []
+    for mode in spec["modes"]:
+        sub = os.path.join(rundir, mode)
+        js = rm_jobs(prop, tier, seed, rmbin, sub, mode=mode, spec=spec)
+        jobs += js
+    jobs = run_jobs(jobs)
+    collect_rm(res, jobs, prop, props=spec.get("report", [prop]))
+    rc = finish(res, dict(spec, level=spec.get("level", "exploration"), assumptions=RM_ASSUMPTIONS))
+    if rc == 0:
+        shutil.rmtree(rundir, ignore_errors=True)
+    return rc
+
 
 def rm_jobs(prop, tier, seed, rmbin, rundir, mode="seq", extra_args=None, spec=None):
     spec = spec or RM_SPECS[prop]
@@ -337,6 +371,8 @@ RM_ASSUMPTIONS = [
 CHECKS = {}
 for _p in RM_SPECS:
     CHECKS[_p] = check_rm
+for _p in MODE_SPECS:
+    CHECKS[_p] = check_modes
 
 
 def replay(prop, path):
